@@ -2,11 +2,12 @@
 from __future__ import annotations
 
 import ast
+import re
 
 from sa import flow
 from sa.model import AnalysisError, dotted, names_in, unparse
 from sa.rules import LEVEL_TEXT, rule
-from sa.rules.util import closure_functions, is_self_attr, iter_body_nodes, locals_defined_by, one_local, pfind, pmatch
+from sa.rules.util import callee, closure_functions, is_self_attr, iter_body_nodes, locals_defined_by, one_local, pfind, pmatch
 
 LEVEL_TEXT["C14"] = (
     "Decides structural necessary conditions of C14: every Blockwise class resolves _task to a total provider; Fused takes "
@@ -58,6 +59,19 @@ def r14c(ctx):
         raise AnalysisError("anchor vanished: member loop of Fused._task")
     loop = loops[0]
     it = unparse(tdefs.expand(loop.iter, at=loop))
+    # Once the nested group's placeholder bindings are filtered out of the merge (clause nested-placeholders below) no two
+    # writes into the sub-graph can disagree, so neither the member order nor the position of the placeholder bindings matters;
+    # without the filter both do (later dict writes win).
+    _ups = [n for n in ast.walk(loop) if isinstance(n, ast.Call) and isinstance(n.func, ast.Attribute) and n.func.attr == "update" and n.args]
+
+    def _is_filtered(u):
+        a0 = tdefs.expand(u.args[0], at=flow.point_of(task, u).stmt)
+        return (isinstance(a0, ast.DictComp) and any(g.ifs for g in a0.generators)) or (isinstance(a0, ast.Call) and not (isinstance(a0.func, ast.Attribute) and a0.func.attr == "_task"))
+
+    order_free = bool(_ups) and all(_is_filtered(u) for u in _ups)
+    order_src = it.replace("reversed(", "").replace("sorted(", "").replace("list(", "").rstrip(")")
+    if order_free and order_src == "self.exprs":
+        it = "self.exprs"
     (ctx.ok if it == "self.exprs" else ctx.bad)(
         "_expr.Fused._task:member-order",
         mod.loc(loop),
@@ -72,6 +86,25 @@ def r14c(ctx):
     bcast_ok = any(len(c.args) == 1 and isinstance(c.args[0], ast.Constant) and c.args[0].value == 0 and _guarded(c, f"_broadcast_dep({v})") for c in calls)
     norm_ok = any(len(c.args) == 1 and ast.unparse(c.args[0]) == idx and not _guarded(c, f"_broadcast_dep({v})") for c in calls)
     (ctx.ok if nested_ok else ctx.bad)("_expr.Fused._task:nested", mod.loc(loop), "nested groups are merged and aliased" if nested_ok else "nested Fused members are no longer merged via graph.update(subgraph)")
+    # nested group that is a broadcast input: expanded at index 0, like every other broadcast member
+    for c in (c for c in calls if _guarded(c, f"isinstance({v}, Fused)")):
+        st_ = flow.point_of(task, c).stmt
+        a0 = tdefs.expand(c.args[0], at=st_) if c.args else None
+        cond = isinstance(a0, ast.IfExp) and f"_broadcast_dep({v})" in ast.unparse(a0.test) and ast.unparse(a0.body) == "0" and ast.unparse(a0.orelse) == idx
+        split = _guarded(c, f"_broadcast_dep({v})") and ast.unparse(a0) == "0"
+        if cond or split or any(_guarded(c2, f"isinstance({v}, Fused)") and _guarded(c2, f"_broadcast_dep({v})") for c2 in calls):
+            ctx.ok("_expr.Fused._task:nested-broadcast", mod.loc(c), "a nested group that is broadcast is expanded and published at index 0")
+        else:
+            ctx.bad("_expr.Fused._task:nested-broadcast", mod.loc(c), f"a nested Fused member is expanded with `{unparse(c)}` whatever its partition count: a single-partition nested group (an optimized lookup frame used as broadcast operand) is published under (name, {idx}) while its consumers ask for (name, 0) - partitions 1.. read the wrong frame or a raw key tuple")
+    # the nested group's own input placeholders must not be merged: they number ITS dependency list
+    ups = [n for n in ast.walk(loop) if isinstance(n, ast.Call) and isinstance(n.func, ast.Attribute) and n.func.attr == "update" and n.args]
+    for u in ups:
+        a0 = tdefs.expand(u.args[0], at=flow.point_of(task, u).stmt)
+        filtered = isinstance(a0, ast.DictComp) and any(g.ifs for g in a0.generators) or (isinstance(a0, ast.Call) and not (isinstance(a0.func, ast.Attribute) and a0.func.attr == "_task"))
+        if filtered:
+            ctx.ok("_expr.Fused._task:nested-placeholders", mod.loc(u), "the nested group's placeholder bindings are filtered out before the merge")
+        else:
+            ctx.bad("_expr.Fused._task:nested-placeholders", mod.loc(u), f"`{unparse(u)}` merges the nested group's sub-graph including its input placeholders, which are numbered for the NESTED dependency list: they overwrite the task of an outer member written earlier (a shared single-partition node), so the nested group reads another input of the outer group")
     (ctx.ok if bcast_ok else ctx.bad)("_expr.Fused._task:broadcast-member", mod.loc(loop), "broadcast members are defined once under index 0" if bcast_ok else "broadcast members are no longer defined under (name, 0) via _task(0)")
     (ctx.ok if norm_ok else ctx.bad)("_expr.Fused._task:member-task", mod.loc(loop), "member task stored under (member name, index)" if norm_ok else "ordinary members are not stored as graph[(member._name, index)] = member._task(index)")
     # (a) alias
@@ -86,24 +119,38 @@ def r14c(ctx):
                 continue
             alias = alias or any(k == "self._name" and v_ == f"(self.exprs[0]._name, {idx})" for k, v_ in pairs)
     (ctx.ok if alias else ctx.bad)("_expr.Fused._task:output-alias", mod.loc(task), "self._name aliases the top member's key" if alias else "the fused sub-graph no longer aliases self._name to (self.exprs[0]._name, index)")
-    # (c) placeholder writes after the loop
+    # the placeholder form is defined by the READER: Fused._execute_task binds graph[<placeholder(i)>] for the i-th input
+    ex = model.method(fused, "_execute_task", own=True).node
+    a = [x.arg for x in ex.args.args]
+    va = ex.args.vararg.arg if ex.args.vararg else None
+    stores = []
+    for n in ast.walk(ex):
+        if isinstance(n, ast.For) and va is not None and f"enumerate({va})" in ast.unparse(n.iter) and isinstance(n.target, ast.Tuple) and len(n.target.elts) == 2:
+            iv, dv = (ast.unparse(e) for e in n.target.elts)
+            for x in ast.walk(n):
+                if isinstance(x, ast.Assign) and len(x.targets) == 1 and isinstance(x.targets[0], ast.Subscript) and ast.unparse(x.targets[0].value) == a[0]:
+                    stores.append((iv, dv, x))
+    if not stores:
+        raise AnalysisError("anchor vanished: Fused._execute_task no longer binds graph[<placeholder>] for each positional input")
+    templates = {re.sub(rf"\b{re.escape(iv)}\b", "V_i", ast.unparse(x.targets[0].slice)) for iv, dv, x in stores}
+    # (c) placeholder writes of the WRITER: every expression of that form in Fused._task
     ph_nodes = []
-    for n in iter_body_nodes(task):
-        if isinstance(n, ast.BinOp) and isinstance(n.op, ast.Add) and isinstance(n.left, ast.Constant) and n.left.value == "_":
-            ph_nodes.append(n)
+    for tpl in templates:
+        ph_nodes += [n for n, _b in pfind(tpl, task)]
+    ph_exprs = list(ph_nodes)
     if not ph_nodes:
-        raise AnalysisError("anchor vanished: '_<i>' placeholders of Fused._task")
+        ctx.bad("_expr.Fused:placeholder-agreement", mod.loc(task), f"Fused._execute_task binds its inputs as {sorted(templates)} but no expression of that form occurs in Fused._task: the members' references to external inputs stay unbound")
     bad_ph = None
     for n in ph_nodes:
         st = n
         while getattr(st, "_parent", None) is not task:
             st = st._parent
-        if stmts.index(st) < stmts.index(loop):
+        if stmts.index(st) < stmts.index(loop) and not order_free:
             bad_ph = (n, st)
     if bad_ph:
         ctx.bad("_expr.Fused._task:placeholders-last", mod.loc(bad_ph[0]), f"placeholder bindings (`{unparse(bad_ph[1])[:80]}`) are written before the member loop: a nested group's own bindings (numbered for ITS dependency list) are merged afterwards and override them, so a member reads the wrong external input")
     else:
-        ctx.ok("_expr.Fused._task:placeholders-last", mod.loc(ph_nodes[0]), "placeholder bindings are the last writes into the sub-graph")
+        ctx.ok("_expr.Fused._task:placeholders-last", mod.loc(ph_nodes[0]) if ph_nodes else mod.loc(task), "nested placeholder bindings are filtered out of the merge: the position of the outer bindings is free" if order_free else "placeholder bindings are the last writes into the sub-graph")
     # (d) same enumeration for placeholders and trailing args
     def _dep_source(it_node, at):
         """strip order-preserving wrappers (enumerate, tuple/list of `self._blockwise_arg(d, index) for d in X`) from an iteration source"""
@@ -134,14 +181,40 @@ def r14c(ctx):
         mod.loc(task),
         "placeholders and arguments both follow self.dependencies()" if good and order_ok else f"placeholder numbering / argument order no longer both follow self.dependencies() through _blockwise_arg(dep, index): {deps_iters}",
     )
-    # _execute_task binds "_i" to deps positionally
-    ex = model.method(fused, "_execute_task", own=True).node
-    a = [x.arg for x in ex.args.args]
-    va = ex.args.vararg.arg if ex.args.vararg else None
-    binds = any(isinstance(n, ast.For) and va is not None and f"enumerate({va})" in ast.unparse(n.iter) and any(isinstance(x, ast.Subscript) and isinstance(x.ctx, ast.Store) and ast.unparse(x.value) == a[0] and "'_'" in ast.unparse(x.slice) for x in ast.walk(n)) for n in ast.walk(ex))
     evals = any(isinstance(r, ast.Return) and isinstance(r.value, ast.Call) and [ast.unparse(x) for x in r.value.args[:2]] == a[:2] for r in ast.walk(ex))
-    good = binds and evals
-    (ctx.ok if good else ctx.bad)("_expr.Fused._execute_task", mod.loc(ex), "binds '_i' to the i-th dependency and evaluates `name`" if good else "Fused._execute_task no longer binds '_<i>' to the i-th positional dependency before evaluating the sub-graph")
+    (ctx.ok if evals else ctx.bad)("_expr.Fused._execute_task", mod.loc(ex), "binds placeholder(i) to the i-th dependency and evaluates `name`" if evals else "Fused._execute_task no longer evaluates the sub-graph for `name` after binding the inputs")
+    if ph_nodes:
+        ctx.ok("_expr.Fused:placeholder-agreement", mod.loc(ex), f"_task writes and _execute_task binds {sorted(templates)}")
+    # placeholders are not guessable strings
+    def _stringy(e, depth=0):
+        if isinstance(e, ast.JoinedStr) or (isinstance(e, ast.Constant) and isinstance(e.value, str)):
+            return True
+        if isinstance(e, ast.BinOp) and isinstance(e.op, (ast.Add, ast.Mod)):
+            return _stringy(e.left, depth) or _stringy(e.right, depth)
+        if isinstance(e, ast.Call) and isinstance(e.func, ast.Name) and e.func.id == "str":
+            return True
+        if isinstance(e, ast.Call) and isinstance(e.func, ast.Attribute) and e.func.attr in ("format", "join"):
+            return True
+        if isinstance(e, ast.Call) and depth < 2:
+            t = callee(model, mod, fused, e)
+            if t is not None:
+                return any(_stringy(r.value, depth + 1) for r in ast.walk(t[2]) if isinstance(r, ast.Return) and r.value is not None)
+        return False
+
+    for e in ph_exprs:
+        if _stringy(e):
+            ctx.bad("_expr.Fused._task:placeholder-namespace", mod.loc(e), f"the inputs of a fused group are bound to plain strings (`{unparse(e)}`) in a graph that also holds the members' literal operands unquoted: dask.core.get replaces every hashable argument that is a key, so a column label / literal / broadcast value equal to '_0', '_1', ... is replaced by an input partition (df['_0'] + df['_1'] fails, assign(c='_0') copies a column)")
+        else:
+            ctx.ok("_expr.Fused._task:placeholder-namespace", mod.loc(e), "placeholders are not strings a literal operand can equal")
+    # computed inputs are stored inert
+    for iv, dv, x in stores:
+        val = x.value
+        inert = isinstance(val, ast.Tuple) and len(val.elts) == 1 and isinstance(val.elts[0], ast.Call) and ast.unparse(val.elts[0].func).endswith("literal") and [ast.unparse(z) for z in val.elts[0].args] == [dv]
+        inert = inert or (isinstance(val, ast.Call) and ast.unparse(val.func).endswith("quote") and False)
+        if inert:
+            ctx.ok("_expr.Fused._execute_task:inert-inputs", mod.loc(x), "input values are stored as quoted literals")
+        else:
+            ctx.bad("_expr.Fused._execute_task:inert-inputs", mod.loc(x), f"`{unparse(x)}` stores the computed input as a TASK of the private graph: dask.core.get executes it - a string value equal to a key becomes an alias (a broadcast tag.min() == '_0' turned into input 0), lists are traversed, tuples with a callable head are called")
 
 
 @rule(
